@@ -51,3 +51,5 @@ def check(v, tier, opts):
     v.assumptions.append("canonical nulls only (NaN for f64, None for Option<i32>)")
     kani_engine.decide(v, "C12", tier, opts)
     return v.finish(RULE)
+
+READY = True
